@@ -11,6 +11,7 @@ let modes : (string * (string -> string)) list = [
   "clnt", Mode_clnt.check_line;
   "ufstree", Mode_ufstree.check_line;
   "fidref", Mode_fidref.check_line;
+  "bufref", Mode_bufref.check_line;
 ]
 
 let () =
